@@ -91,6 +91,10 @@ class ZeroLinearOperator(LinearOperator):
     def representation_tree(self) -> _ZeroLinearOperatorRepresentationTree:
         return _ZeroLinearOperatorRepresentationTree(self)
 
+    def _permute_batch(self, *dims: int) -> LinearOperator:
+        sizes = [self.sizes[dim] for dim in dims] + self.sizes[-2:]
+        return self.__class__(*sizes, dtype=self._dtype, device=self._device)
+
     def _prod_batch(self, dim: int) -> LinearOperator:
         sizes = list(self.sizes)
         del sizes[dim]
